@@ -4,6 +4,9 @@ mod c07;
 mod c20;
 mod hist;
 mod stack;
+mod sys;
+#[path = "../../net/src/topo.rs"]
+mod topo;
 mod world;
 
 use simcore::{Budget, Engine, RunCtx, RunResult, Tier};
@@ -69,11 +72,20 @@ pub fn classify(clause: &str, detail: &str, _trace: &[String]) -> Option<&'stati
 fn run_history(prop: &str, ctx: &mut RunCtx) -> RunResult {
     // C20 runs are pre-emptive: the chance of yielding at a hooked scheduling point is a swarm knob
     let preempt = if prop == "C20" { [(1u64, 3u64), (1, 6), (1, 12), (1, 2)][ctx.ch.idx(4)] } else { (0, 1) };
+    // a share of the C07 runs are whole-system histories (sys.rs): the network is drawn first
+    // (VERIF_SYS_ONLY=1, for experiments with the harness: only whole-system histories are judged)
+    let sys_only = std::env::var("VERIF_SYS_ONLY").is_ok();
+    let sys_world = if (prop == "C07" || prop == "C06") && (ctx.ch.chance(1, 10) || sys_only) { Some(topo::draw(ctx)) } else { None };
     let ch = std::mem::replace(&mut ctx.ch, simcore::Choices::replay(Vec::new()));
     let trace = std::mem::take(&mut ctx.trace);
     let sim = Sim::new(ch, trace, preempt, prop == "C20" || std::env::var("VERIF_LOG_SCHED").is_ok());
     let open = ctx.open_list();
     let r = std::panic::catch_unwind(std::panic::AssertUnwindSafe(|| {
+        if let Some(w) = sys_world {
+            sim.probe("system-history");
+            let r = sys::drive_sys(&sim, w, prop);
+            return (r, Vec::new(), sim.now_ns() / 1_000_000);
+        }
         let mut h = Hist::new(prop, sim.clone());
         h.open = open;
         let r = if prop == "C20" { c20::drive_c20(&mut h) } else { drive(&mut h) };
@@ -206,6 +218,7 @@ impl Engine for MgrEngine {
             "PathStrategy with sciparse AclPolicy / HopPatternPolicy parsed from generated strings and arbitrary predicates",
             "ExponentialBackoff (jitter drawn from the choice stream)",
             "tokio::sync::{Notify, broadcast}, tokio_util CancellationToken, arc_swap, scc::HashIndex (through verif-hooks wrappers)",
+            "whole-system histories (a tenth of the C06/C07 runs): pocketscion SegmentRegistry (endhost_list_segments, into_path_segments with the topology's keys), sciparse combinator, pocketscion NetworkSimulator::dispatch (SpecRoutingLogic traversal, SCMP error generation, local delivery), UdpScionSocket + ScmpErrorHandler + MultiPathManager in one AS",
             "stack mode (a third of the C05-C07 histories): UdpScionSocket::send_to / recv_from, PathUnawareUdpScionSocket, ScmpErrorHandler, wired to the manager as ScionStack::bind_with_config does (hook H10)",
         ]
     }
@@ -223,8 +236,8 @@ impl Engine for MgrEngine {
     fn required_reach(&self, prop: &str) -> Vec<&'static str> {
         match prop {
             "C05" => vec!["handout-path", "policy-rejected-some", "policy-accepted-some", "lookup-error", "clock-advance"],
-            "C06" => vec!["handout-path", "lookup-error", "lookup-empty", "clock-on-boundary", "oracle-sizes", "final-liveness-checked"],
-            "C07" => vec!["report-concerns-active", "switch-checked", "report-unrelated", "stack-send", "stack-scmp-report", "stack-first-hop-refused"],
+            "C06" => vec!["handout-path", "lookup-error", "lookup-empty", "clock-on-boundary", "oracle-sizes", "final-liveness-checked", "system-history", "oracle-system-datagram-fate", "clock-jump-before-timers-run"],
+            "C07" => vec!["report-concerns-active", "switch-checked", "report-unrelated", "stack-send", "stack-scmp-report", "stack-first-hop-refused", "system-history", "system-scmp-interface-down-learned", "oracle-system-steering", "link-down"],
             "C20" => vec!["waiter-while-lookup-outstanding", "oracle-single-worker", "concurrent-first-requests", "oracle-drop", "caller-cancelled", "manager-dropped"],
             _ => vec![],
         }
